@@ -166,6 +166,44 @@ func runC07(c *Ctx) {
 	r.Rule("src-mac", "Ethernet source of every emitted frame is NICInfo.HostAddr4.MAC", 11)
 	r.Rule("checksum-order", "checksums are computed after the last write they cover", 4)
 	r.Rule("hop-limit", "hop limit 255 for link-local destinations and for neighbour discovery messages", 2)
+	// a NetBIOS name goes out as exactly 16 characters (32 half-octets under a length octet that says 32): padding to 16
+	// is the last thing that changes the length of the name - nothing shortens it afterwards
+	r.Rule("nbns-name", "the NBNS name is padded to 16 characters after any truncation, not before", 1)
+	if fn := c.P.Func("handlers/dns_naming", "encodeNBNSName"); fn != nil {
+		var pads, cuts []ssa.Instruction
+		isStr := func(t types.Type) bool {
+			b, ok := t.Underlying().(*types.Basic)
+			return ok && b.Info()&types.IsString != 0
+		}
+		core.EachInstr(fn, func(i ssa.Instruction) {
+			switch t := i.(type) {
+			case *ssa.BinOp:
+				if t.Op == token.ADD && isStr(t.Type()) {
+					pads = append(pads, i)
+				}
+			case *ssa.Slice:
+				if isStr(t.X.Type()) {
+					cuts = append(cuts, i)
+				}
+			}
+		})
+		st, det := core.Proved, ""
+		if len(pads) == 0 {
+			st, det = core.Undecided, "no padding (string concatenation) found in encodeNBNSName"
+		}
+		for _, p := range pads {
+			for _, cu := range cuts {
+				if reachesWithout(p, cu, func(ssa.Instruction) bool { return false }) {
+					st = core.Violated
+					det = "the name is shortened at " + c.P.Pos(core.PosOf(cu)) + " after it was padded at " + c.P.Pos(core.PosOf(p)) + ": a name longer than 16 characters is cut and never padded again, so fewer than 32 half-octets follow a length octet of 32 and the question swallows its own terminator"
+				}
+			}
+		}
+		r.Add(core.Obligation{Rule: "nbns-name", Key: "nbns-name encodeNBNSName", Func: core.FuncName(fn), Pos: c.P.Pos(fn.Pos()), Status: st,
+			Basis: fmt.Sprintf("%d padding and %d truncation sites: no truncation reachable from a padding", len(pads), len(cuts)), Detail: det})
+	} else {
+		r.Fatal("encodeNBNSName not found")
+	}
 	// the SSDP search is an HTTP request over UDP: request line first, every line ended by CR LF, an empty line last.
 	// The payload is a package-level constant; its bytes are computed from the initialiser.
 	r.Rule("ssdp-text", "the SSDP M-SEARCH payload is a well-formed HTTP request", 1)
